@@ -93,6 +93,22 @@ impl<'a> Gen<'a> {
         st(*self.rng.pick(&["x", "héllo", "", "a b", "k", "zz"]))
     }
     fn data(&mut self, depth: u32) -> (E, Ty) {
+        // values at the edges of each kind: null (written, and computed), booleans, zero, empties
+        if self.rng.chance(1, 6) {
+            let e = match self.rng.below(10) {
+                0 => E::Null,
+                1 => idx(E::List(vec![num(1)]), num(9)),
+                2 => dot(E::Rec(vec![RK::Static("k".into(), num(1))]), "nokey"),
+                3 => E::InRef("missing".into()),
+                4 => E::Bool(self.rng.chance(1, 2)),
+                5 => num(0),
+                6 => return (E::List(vec![]), Ty::List),
+                7 => return (E::Rec(vec![]), Ty::Rec),
+                8 => return (st(""), Ty::Str),
+                _ => cond(E::Bool(false), num(1), E::Null),
+            };
+            return (e, Ty::Num);
+        }
         match self.rng.below(if depth == 0 { 4 } else { 2 }) {
             0 => (self.small_num(), Ty::Num),
             1 => (self.small_str(), Ty::Str),
@@ -1084,6 +1100,7 @@ pub fn execute(sc: &Scenario) -> Exec {
                         fault_fired: None,
                         depth_error: false,
                         yields: 0,
+                        output_error: false,
                     });
                     continue;
                 }
@@ -1116,8 +1133,15 @@ pub fn cli_cross_check(sc: &Scenario, ex: &Exec) -> Option<Viol> {
     if !std::path::Path::new(&cli).exists() {
         return None;
     }
-    let prefix = ex.outcomes.iter().position(|o| o.status != Status::Ok).unwrap_or(ex.outcomes.len());
+    // the prefix ends before the first statement that fails, or whose `output` is refused as
+    // not portable (the CLI exits 1 there)
+    let prefix = ex.outcomes.iter().position(|o| o.status != Status::Ok || o.output_error).unwrap_or(ex.outcomes.len());
     if prefix == 0 || ex.snapshots.len() < prefix {
+        return None;
+    }
+    // recursion hundreds of calls deep overflows the 8 MiB main stack of the dev-profile binary
+    // (C18's subject, and a property of the build profile): not a binding question
+    if ex.outcomes[..prefix].iter().any(|o| o.call_steps > 150) {
         return None;
     }
     let snap = &ex.snapshots[prefix - 1];
